@@ -155,7 +155,10 @@ func runIntegrity(c *engine.Ctx) {
 		}{
 			{"pair", func() *vh.GT { return vh.Pair(vh.Gen1, vh.Gen2) }},
 			{"pow", func() *vh.GT { return new(vh.GT).ScalarMult(vh.Pair(vh.Gen1, vh.Gen2), k) }},
-			{"product", func() *vh.GT { g := vh.Pair(vh.Gen1, vh.Gen2); return new(vh.GT).Add(g, new(vh.GT).ScalarMult(g, big.NewInt(5))) }},
+			{"product", func() *vh.GT {
+				g := vh.Pair(vh.Gen1, vh.Gen2)
+				return new(vh.GT).Add(g, new(vh.GT).ScalarMult(g, big.NewInt(5)))
+			}},
 			{"decoded", func() *vh.GT { r := new(vh.GT); r.Unmarshal(vh.Pair(vh.Gen1, vh.Gen2).Marshal()); return r }},
 		}
 		for _, s := range srcs {
